@@ -93,6 +93,8 @@ class Proc:
         self.priv = None            # Priv (shared by reference between threads of one address space)
         self.image = self           # the process image this thread belongs to (itself unless a pool thread)
         self.dead = False
+        self.mp_identity = ()       # multiprocessing's numbering of processes: children of a process are 1, 2, ... as started
+        self.mp_children = 0
         self.entropy_ctr = 0
         self.uuid_ctr = 0
         self.files = []             # SimFile objects opened by this process
@@ -623,6 +625,114 @@ class SimFile:
             pass
 
 
+class SimRWFile:
+    """A file opened for update ('r+', 'w+', 'a+', 'x'): no user-space buffering is modelled (every write goes straight
+    through), but every operation is a seam, so that another process can act between a seek and the write that relies on it."""
+
+    def __init__(self, kernel, proc, path, mode, raw):
+        self._k, self._p, self.name, self.mode, self._f = kernel, proc, path, mode, raw
+        self._task = proc.task
+        self._dead = False
+
+    @property
+    def closed(self):
+        return self._f.closed
+
+    def _op(self, what, detail=''):
+        if cur() is not None and not self._dead:
+            self._k.seam('rw-' + what, f'{self._k.norm_path(self.name)} {detail}'.strip())
+
+    def seek(self, *a):
+        self._op('seek', ' '.join(map(str, a)))
+        return self._f.seek(*a)
+
+    def tell(self):
+        return self._f.tell()
+
+    def read(self, *a):
+        self._op('read')
+        return self._f.read(*a)
+
+    def readline(self, *a):
+        self._op('read')
+        return self._f.readline(*a)
+
+    def readlines(self, *a):
+        self._op('read')
+        return self._f.readlines(*a)
+
+    def __iter__(self):
+        self._op('read')
+        return iter(self._f.readlines())
+
+    def write(self, s):
+        self._op('write', f'{len(s)}')
+        if self._dead:
+            return len(s)
+        pos = None
+        try:
+            pos = self._f.tell()
+        except (OSError, ValueError):
+            pass
+        n = self._f.write(s)
+        if hasattr(self._f, 'flush'):
+            self._f.flush()
+        owner = cur()
+        if owner is not None:
+            data = s if isinstance(s, (bytes, bytearray)) else str(s).encode('utf-8', 'replace')
+            self._k.note('write', path=self._k.norm_path(self.name), data=bytes(data), task=owner.task, at=pos, rw=True)
+        return n
+
+    def writelines(self, lines):
+        for ln in lines:
+            self.write(ln)
+
+    def truncate(self, *a):
+        self._op('truncate')
+        return self._f.truncate(*a)
+
+    def flush(self):
+        self._op('flush')
+        return self._f.flush()
+
+    def fileno(self):
+        return self._f.fileno()
+
+    def readable(self):
+        return self._f.readable()
+
+    def writable(self):
+        return self._f.writable()
+
+    def seekable(self):
+        return self._f.seekable()
+
+    def isatty(self):
+        return False
+
+    def close(self):
+        if not self._f.closed:
+            self._op('close')
+            self._f.close()
+
+    def _discard(self):
+        self._dead = True
+        try:
+            self._f.close()
+        except OSError:
+            pass
+        return 0
+
+    def __enter__(self):
+        return self
+
+    def __exit__(self, *a):
+        self.close()
+
+    def __getattr__(self, n):
+        return getattr(self._f, n)
+
+
 _WRITE_RE = re.compile(r'[wax+]')
 
 
@@ -652,7 +762,13 @@ def _sim_open(file, mode='r', buffering=-1, encoding=None, errors=None, newline=
         return _real['open'](file, mode, buffering, encoding, errors, newline, closefd, opener)
     if '+' in mode or 'x' in mode or buffering == 0:
         k.seam('open-rw', f'{k.norm_path(path)} {mode}')
-        return _real['open'](file, mode, buffering, encoding, errors, newline, closefd, opener)
+        if 'b' in mode:
+            raw = _real['open'](file, mode, 0)
+        else:
+            raw = _real['open'](file, mode, buffering, encoding, errors, newline, closefd, opener)
+        f = SimRWFile(k, p, path, mode, raw)
+        p.image.files.append(f)
+        return f
     k.seam('open-w', f'{k.norm_path(path)} {mode}')
     flags = os.O_WRONLY | os.O_CREAT | os.O_CLOEXEC
     if 'a' in mode:
@@ -869,6 +985,7 @@ class SimPool:
                 w = k.spawn(self._make_worker(i), f't{i}', 'worker', parent.priv, start_delay=delay, image=parent.image)
             else:
                 w = k.spawn(self._make_worker(i), f'w{i}', 'worker', self._child_priv(snap), start_delay=delay)
+            self._number(w)
             self.workers.append(w)
         k.record('fork', f'{self.W} workers')
         plan = k.cfg.get('kill_plan')
@@ -876,6 +993,12 @@ class SimPool:
             widx, at = plan
             if widx < len(self.workers):
                 self.workers[widx].kill_at_seam = at
+
+    def _number(self, w):
+        own = self.owner.image
+        own.mp_children += 1
+        w.mp_identity = own.mp_identity + (own.mp_children,)
+        w.mp_name = ('ForkPoolWorker-' if isinstance(self, SimMPPool) else 'ForkProcess-') + ':'.join(map(str, w.mp_identity))
 
     def _replace_worker(self, i):
         k = self.k
@@ -889,6 +1012,7 @@ class SimPool:
         else:
             w = k.spawn(self._make_worker(i), f'w{i}r', 'worker', self._child_priv(self.owner.priv.fork()),
                         start_delay=k.delay(cur_p, 'fork'))
+        self._number(w)
         self.workers.append(w)
         k.record('respawn', f'worker slot {i}')
         k.probes['worker_respawned'] += 1
@@ -981,6 +1105,72 @@ class SimThreadPool(SimPool):
     """ThreadPoolExecutor: workers share the submitting process's private state (no fork copy) and do not
     lose buffers on exit.  Modelled with the same scheduler."""
     shares_state = True
+
+
+class SimLock:
+    """multiprocessing.Lock / RLock / Semaphore created by a simulated process: acquiring is a scheduling point and blocks in
+    simulated time (a real OS semaphore would block the one runnable thread for real)"""
+
+    _registry = {}
+
+    def __init__(self, kernel, value=1, recursive=False):
+        self._k = kernel
+        self._value = value
+        self._recursive = recursive
+        self._owner = None
+        self._depth = 0
+        self._id = len(SimLock._registry) + 1
+        SimLock._registry[self._id] = self
+
+    def __reduce__(self):
+        return (_simlock_by_id, (self._id,))       # crosses the (simulated) process boundary by identity, like the real thing
+
+    def acquire(self, block=True, timeout=None):
+        p = cur()
+        if p is None:
+            raise HarnessError('SimLock used outside the simulation')
+        k = self._k
+        if self._recursive and self._owner is p.image and self._depth > 0:
+            self._depth += 1
+            return True
+        k.seam('lock-acquire', f'lock{self._id}')
+        if self._value <= 0:
+            if not block:
+                return False
+            ok = k.block(lambda: self._value > 0, timeout=timeout, what=f'lock{self._id}')
+            if not ok:
+                return False
+        self._value -= 1
+        self._owner = p.image
+        self._depth = 1
+        k.probes['sim_lock_acquired'] += 1
+        return True
+
+    def release(self):
+        p = cur()
+        if self._recursive and self._depth > 1:
+            self._depth -= 1
+            return
+        if p is not None and not p.dead:
+            self._k.seam('lock-release', f'lock{self._id}')
+        self._value += 1
+        self._owner = None
+        self._depth = 0
+
+    def locked(self):
+        return self._value <= 0
+
+    def __enter__(self):
+        self.acquire()
+        return self
+
+    def __exit__(self, *a):
+        self.release()
+        return False
+
+
+def _simlock_by_id(i):
+    return SimLock._registry[i]
 
 
 class _AsyncResult:
@@ -1371,6 +1561,54 @@ def install():
             return SimMPPool(*a, **kw)
         return _real['mp.Pool'](*a, **kw)
     multiprocessing.Pool = mp_pool
+    import multiprocessing.context as _mpc
+    for nm, kw in (('Lock', {}), ('RLock', {'recursive': True})):
+        _real['mp.ctx.' + nm] = getattr(_mpc.BaseContext, nm)
+
+        def mk(nm=nm, kw=kw):
+            def f(self):
+                p = cur()
+                if p is not None:
+                    return SimLock(p.kernel, 1, **kw)
+                return _real['mp.ctx.' + nm](self)
+            return f
+        setattr(_mpc.BaseContext, nm, mk())
+    for nm in ('Semaphore', 'BoundedSemaphore'):
+        _real['mp.ctx.' + nm] = getattr(_mpc.BaseContext, nm)
+
+        def mks(nm=nm):
+            def f(self, value=1):
+                p = cur()
+                if p is not None:
+                    return SimLock(p.kernel, value)
+                return _real['mp.ctx.' + nm](self, value)
+            return f
+        setattr(_mpc.BaseContext, nm, mks())
+    import multiprocessing.process as _mpproc
+    _real['mp.current_process'] = _mpproc.current_process
+
+    class _SimProcInfo:
+        def __init__(self, p):
+            self._identity = tuple(p.mp_identity)
+            self.name = getattr(p, 'mp_name', 'MainProcess')
+            self.pid = self.ident = p.pid
+            self.daemon = p.role == 'worker'
+            self.exitcode = None
+            self.authkey = b''
+
+        def is_alive(self):
+            return True
+
+    def current_process():
+        p = cur()
+        if p is None:
+            return _real['mp.current_process']()
+        return _SimProcInfo(p.image if p.image is not p else p)
+    _mpproc.current_process = current_process
+    multiprocessing.current_process = current_process
+    # the names in the multiprocessing namespace are methods bound at import time to the default context
+    for nm in ('Lock', 'RLock', 'Semaphore', 'BoundedSemaphore'):
+        setattr(multiprocessing, nm, getattr(_mpc._default_context, nm))
     _real['mp.Process.start'] = multiprocessing.Process.start
 
     def mp_process_start(self):
